@@ -11,6 +11,15 @@ from props.base import Prop
 from props.C06 import coq_curve, gen_curve, np_curve
 
 
+ONE_ROW_X = None      # set per case by run(): a single value v handed over as the one-row curve [[x, v]]
+
+
+def npc(c):
+    if ONE_ROW_X is not None and len(c) == 1 and not isinstance(c[0], (list, tuple)):
+        return np.array([[float(ONE_ROW_X), float(c[0])]])
+    return np_curve(c)
+
+
 def gen_bsfc(rng, lo=150, hi=260):
     k = rng.choice([1, 2, 3, 4, 5])
     if k == 1:
@@ -47,12 +56,16 @@ class P(Prop):
             rated = Fraction(rng.choice([500, 1000, 2000, 4000]))
             n = rng.randint(1, 5)
             ps = [Fraction(rng.randint(0, 64), 64) * rated if rng.random() < 0.85 else Fraction(0) for _ in range(n)]
-            c = {"stream": st, "rated": rated, "ps": ps, "scalar": rng.random() < 0.3}
+            c = {"stream": st, "rated": rated, "ps": ps, "scalar": rng.random() < 0.3,
+                 # a characteristic that is one value may be handed over as [v] or as the one-row curve [[load, v]]
+                 "one_row_x": (float(rng.choice([0.5, 0.8, 1.0])) if rng.random() < 0.3 else None)}
             if c["scalar"]:
                 c["ps"] = ps[:1]
             if st == "engine":
                 c.update({"bsfc": gen_bsfc(rng), "pilot": gen_bsfc(rng, 2, 12) if rng.random() < 0.4 else None,
-                          "same_pilot_kind": rng.random() < 0.3})
+                          "same_pilot_kind": rng.random() < 0.3,
+                          "main_origin": rng.choice(["FOSSIL", "FOSSIL", "BIO", "RENEWABLE_NON_BIO"]),
+                          "pilot_origin": rng.choice(["FOSSIL", "FOSSIL", "BIO"])})
                 if len(c["bsfc"]) > 1 and rng.random() < 0.5:       # a power exactly at a curve point
                     c["ps"][0] = c["bsfc"][rng.randrange(len(c["bsfc"]))][0] * rated
             elif st == "genset":
@@ -64,7 +77,9 @@ class P(Prop):
             elif st == "geared":
                 c.update({"bsfc": gen_bsfc(rng), "gear": gen_curve(rng, lo=56)})
             elif st == "fuelcell":
-                c.update({"modules": rng.choice([1, 2, 3, 4]), "conv": gen_curve(rng, lo=58), "mod_eff": gen_curve(rng, lo=26, hi=40)})
+                c.update({"modules": rng.choice([1, 2, 3, 4]), "conv": gen_curve(rng, lo=58), "mod_eff": gen_curve(rng, lo=26, hi=40),
+                          "fc_fuel": rng.choice(["HYDROGEN", "HYDROGEN", "NATURAL_GAS", "AMMONIA", "METHANOL"]),
+                          "fc_spec": rng.choice(["IMO", "FUEL_EU_MARITIME"])})
             elif st == "cogas":
                 k = rng.choice([2, 3, 4])
                 loads = sorted(rng.sample([Fraction(i, 8) for i in range(1, 9)], k))
@@ -99,6 +114,8 @@ class P(Prop):
         from feems.exceptions import InputError
         from feems.fuel import FuelOrigin, TypeFuel
         from feems.types_for_feems import TypeComponent, TypePower
+        global ONE_ROW_X
+        ONE_ROW_X = case.get("one_row_x")
         st = case["stream"]
         r = float(case["rated"])
         arr = np.array([float(x) for x in case["ps"]])
@@ -107,34 +124,36 @@ class P(Prop):
         try:
             with np.errstate(all="ignore"):
                 if st == "engine":
-                    kw = dict(type_=TypeComponent.MAIN_ENGINE, name="e", rated_power=r, rated_speed=900.0, bsfc_curve=np_curve(case["bsfc"]))
+                    kw = dict(type_=TypeComponent.MAIN_ENGINE, name="e", rated_power=r, rated_speed=900.0, bsfc_curve=npc(case["bsfc"]))
                     if case["pilot"]:
                         mf = TypeFuel.DIESEL if case["same_pilot_kind"] else TypeFuel.NATURAL_GAS
-                        eng = EngineDualFuel(bspfc_curve=np_curve(case["pilot"]), pilot_fuel_type=TypeFuel.DIESEL, fuel_type=mf, **kw)
+                        eng = EngineDualFuel(bspfc_curve=npc(case["pilot"]), pilot_fuel_type=TypeFuel.DIESEL, fuel_type=mf,
+                                             fuel_origin=FuelOrigin[case.get("main_origin", "FOSSIL")],
+                                             pilot_fuel_origin=FuelOrigin[case.get("pilot_origin", "FOSSIL")], **kw)
                     else:
                         eng = Engine(**kw)
                     rp = eng.get_engine_run_point_from_power_out_kw(power_kw=power)
                     fuels = rp.fuel_flow_rate_kg_per_s.fuels
                     return {"load": lst(rp.load_ratio), "bsfc": lst(rp.bsfc_g_per_kWh), "fuel": lst(fuels[0].mass_or_mass_fraction),
                             "pilot": lst(fuels[1].mass_or_mass_fraction) if len(fuels) > 1 else [], "nfuels": len(fuels),
-                            "kinds": [f.fuel_type.name for f in fuels]}
+                            "kinds": [f.fuel_type.name for f in fuels], "origins": [f.origin.name for f in fuels]}
                 if st == "genset":
                     eng = Engine(type_=TypeComponent.AUXILIARY_ENGINE, name="e", rated_power=float(case["eng_rated"]), rated_speed=900.0,
-                                 bsfc_curve=np_curve(case["bsfc"]))
+                                 bsfc_curve=npc(case["bsfc"]))
                     gen = ElectricMachine(type_=TypeComponent.GENERATOR, name="g", rated_power=r, rated_speed=900.0,
-                                          power_type=TypePower.POWER_SOURCE, switchboard_id=1, eff_curve=np_curve(case["gen_eff"]))
+                                          power_type=TypePower.POWER_SOURCE, switchboard_id=1, eff_curve=npc(case["gen_eff"]))
                     rect = None
                     if case["rect"]:
                         rect = ElectricComponent(type_=TypeComponent.RECTIFIER, name="r", rated_power=float(case.get("rect_rated", case["rated"])),
-                                                 eff_curve=np_curve(case["rect"]), switchboard_id=1)
+                                                 eff_curve=npc(case["rect"]), switchboard_id=1)
                     gs = Genset("gs", eng, gen, rect)
                     rp = gs.get_fuel_cons_load_bsfc_from_power_out_generator_kw(power=arr)
                     return {"eng_power": lst(gs.aux_engine.power_output), "fuel": lst(rp.engine.fuel_flow_rate_kg_per_s.fuels[0].mass_or_mass_fraction),
                             "load": lst(rp.engine.load_ratio), "bsfc": lst(rp.engine.bsfc_g_per_kWh),
                             "gen_points": [[float(a), float(b)] for a, b in gs.generator._efficiency_points]}
                 if st == "geared":
-                    eng = Engine(type_=TypeComponent.MAIN_ENGINE, name="e", rated_power=r, rated_speed=900.0, bsfc_curve=np_curve(case["bsfc"]))
-                    gb = BasicComponent(TypeComponent.GEARBOX, TypePower.POWER_TRANSMISSION, "gb", r, np_curve(case["gear"]))
+                    eng = Engine(type_=TypeComponent.MAIN_ENGINE, name="e", rated_power=r, rated_speed=900.0, bsfc_curve=npc(case["bsfc"]))
+                    gb = BasicComponent(TypeComponent.GEARBOX, TypePower.POWER_TRANSMISSION, "gb", r, npc(case["gear"]))
                     me = MainEngineWithGearBoxForMechanicalPropulsion("me", eng, gb)
                     me.power_output = arr
                     rp1 = me.get_engine_run_point_from_power_out_kw()
@@ -145,11 +164,14 @@ class P(Prop):
                             "delivered_after": lst(me.power_output)}
                 if st == "fuelcell":
                     m = case["modules"]
-                    mod = FuelCell("m", r / m, np_curve(case["mod_eff"]), TypeFuel.HYDROGEN, FuelOrigin.RENEWABLE_NON_BIO)
-                    conv = ElectricComponent(type_=TypeComponent.POWER_CONVERTER, name="c", rated_power=r, eff_curve=np_curve(case["conv"]),
+                    from feems.fuel import FuelSpecifiedBy
+                    fuel = TypeFuel[case.get("fc_fuel", "HYDROGEN")]
+                    origin = FuelOrigin.RENEWABLE_NON_BIO if fuel == TypeFuel.HYDROGEN else FuelOrigin.FOSSIL
+                    mod = FuelCell("m", r / m, npc(case["mod_eff"]), fuel, origin)
+                    conv = ElectricComponent(type_=TypeComponent.POWER_CONVERTER, name="c", rated_power=r, eff_curve=npc(case["conv"]),
                                              power_type=TypePower.POWER_TRANSMISSION, switchboard_id=1)
                     fcs = FuelCellSystem("fcs", mod, conv, 1, number_modules=m)
-                    rp = fcs.get_fuel_cell_run_point(power_out_kw=power)
+                    rp = fcs.get_fuel_cell_run_point(power_out_kw=power, fuel_specified_by=FuelSpecifiedBy[case.get("fc_spec", "IMO")])
                     f = rp.fuel_flow_rate_kg_per_s.fuels[0]
                     return {"fuel": lst(f.mass_or_mass_fraction), "lhv": float(f.lhv_mj_per_g)}
                 if st == "cogas":
@@ -158,10 +180,10 @@ class P(Prop):
                         s = case["split"]
                         kw = dict(gas_turbine_power_curve=np.array([[float(l), float(g)] for l, g in zip(s["loads"], s["gt"])]),
                                   steam_turbine_power_curve=np.array([[float(l), float(g)] for l, g in zip(s["loads"], s["st"])]))
-                    cg = COGAS(name="cg", rated_power=r, eff_curve=np_curve(case["ceff"]), rated_speed=3000.0, fuel_type=TypeFuel.NATURAL_GAS, **kw)
+                    cg = COGAS(name="cg", rated_power=r, eff_curve=npc(case["ceff"]), rated_speed=3000.0, fuel_type=TypeFuel.NATURAL_GAS, **kw)
                     if case["coges"]:
                         gen = ElectricMachine(type_=TypeComponent.GENERATOR, name="g", rated_power=r, rated_speed=3000.0,
-                                              power_type=TypePower.POWER_SOURCE, switchboard_id=1, eff_curve=np_curve(case["gen_eff"]))
+                                              power_type=TypePower.POWER_SOURCE, switchboard_id=1, eff_curve=npc(case["gen_eff"]))
                         sysm = COGES("coges", cg, gen)
                         rp = sysm.get_system_run_point_from_power_output_kw(power_output_kw=arr).cogas
                         cp = lst(cg.power_output)
@@ -249,6 +271,9 @@ class P(Prop):
                 inside = len(case["bsfc"]) == 1 or (float(case["bsfc"][0][0]) <= p / float(case["rated"]) <= float(case["bsfc"][-1][0]))
                 if f < 0 and inside:      # the property speaks of powers within the load range covered by the curve
                     return f"negative fuel flow {f} at {p} kW"
+            if case["pilot"] and obs.get("origins") and obs["origins"] != [case.get("main_origin", "FOSSIL"), case.get("pilot_origin", "FOSSIL")][:len(obs["origins"])]:
+                return (f"dual-fuel engine with main fuel origin {case.get('main_origin')} and pilot origin {case.get('pilot_origin')} reports its "
+                        f"fuels with origins {obs['origins']}")
             if case["pilot"] and obs["nfuels"] != 2:
                 return f"dual-fuel engine reports {obs['nfuels']} fuel entries (main and pilot must be separate): {obs['kinds']}"
             if len(case["bsfc"]) > 1:
@@ -305,8 +330,11 @@ class P(Prop):
             t.append("dual-fuel" + ("(pilot of the main fuel's kind)" if case["same_pilot_kind"] else ""))
         if case["stream"] == "genset" and case["rect"]:
             t.append("with-rectifier")
+        if case.get("one_row_x") is not None:
+            t.append("single values handed over as one-row curves [[load, v]]")
         if case["stream"] == "fuelcell":
             t.append(f"modules={case['modules']}")
+            t.append("fuel-cell:" + case.get("fc_fuel", "HYDROGEN") + "/" + case.get("fc_spec", "IMO"))
         if case["stream"] == "cogas":
             t.append("coges" if case["coges"] else "cogas-alone")
             t.append("with-split-curves" if case["split"] else "no-split-curves")
